@@ -65,7 +65,7 @@ var npDecCands = []string{"0", "1", "0.5", "0.500000000000000001", "0.4999999999
 var npStrCands = []string{"moniker,username", "moniker", "username", "Moniker,username", "moniker,username,foo", "moniker,,username", "moniker,1bad", "", "moniker,username,contact", "moniker,user_name9", "moniker,user-name", "moniker, username"}
 
 func runC19(r *Rec) {
-	w := NewWorld(WorldOpts{NAcc: 4, NVal: 1, SudoAccs: []int{0}})
+	w := NewWorld(WorldOpts{NAcc: 6, NVal: 1, SudoAccs: []int{0}})
 	k := w.app.CustomGovKeeper
 	ctx := w.KeeperCtx()
 	ids := npIds()
@@ -289,6 +289,34 @@ func runC19(r *Rec) {
 		{0, func(p *govtypes.NetworkProperties) { p.UniqueIdentityKeys = "username" }, false, "sudo-no-moniker"},
 		{0, func(p *govtypes.NetworkProperties) { p.InflationPeriod = 2629799 }, false, "sudo-inflation-period-low"},
 		{0, func(p *govtypes.NetworkProperties) { p.MaxJailedPercentage = sdk.NewDecWithPrec(34, 2) }, false, "sudo-jailed-above-third"},
+	}
+	// who holds the change permission is decided by the permission rule (C07: an individual or role blacklist beats
+	// every whitelist). Accounts 2..4: role-whitelisted + individually blacklisted; individually whitelisted + role-
+	// blacklisted; role-whitelisted only.
+	{
+		perm := govtypes.PermValue(govtypes.PermChangeTxFee)
+		rw := k.CreateRole(ctx, "np-granter", "grants the change permission")
+		k.WhitelistRolePermission(ctx, rw, perm)
+		rb := k.CreateRole(ctx, "np-denier", "denies the change permission")
+		k.BlacklistRolePermission(ctx, rb, perm)
+		actor := func(i int) govtypes.NetworkActor {
+			a, ok := k.GetNetworkActorByAddress(ctx, w.addrs[i])
+			if !ok {
+				a = govtypes.NewDefaultActor(w.addrs[i])
+				k.SaveNetworkActor(ctx, a)
+			}
+			return a
+		}
+		k.AssignRoleToActor(ctx, actor(2), uint64(rw))
+		k.AddBlacklistPermission(ctx, actor(2), perm)
+		k.AddWhitelistPermission(ctx, actor(3), perm)
+		k.AssignRoleToActor(ctx, actor(3), uint64(rb))
+		k.AssignRoleToActor(ctx, actor(4), uint64(rw))
+		cases = append(cases,
+			tc{2, func(p *govtypes.NetworkProperties) { p.MinTxFee = 81 }, false, "role-whitelisted-but-individually-blacklisted"},
+			tc{3, func(p *govtypes.NetworkProperties) { p.MinTxFee = 82 }, false, "individually-whitelisted-but-role-blacklisted"},
+			tc{4, func(p *govtypes.NetworkProperties) { p.MinTxFee = 83 }, true, "role-whitelisted"},
+		)
 	}
 	for _, c := range cases {
 		p := cur
